@@ -256,19 +256,12 @@ def r_listen_loop(ctx: Ctx, rule: str):
         if isinstance(a, ast.Call) and isinstance(a.func, ast.Attribute) and a.func.attr == "encode":
             src = a.func.value
         ok = False
-        if isinstance(src, ast.Name):
-            vals = [h[1] for h in ctx.an.scope(w.func).defs.get(src.id, []) if h[0] == "assign"] + \
-                   [h[2] for h in ctx.an.scope(w.func).defs.get(src.id, []) if h[0] == "ann"]
-
-            def from_buffer(v: ast.AST) -> bool:
-                # directly, or through a helper (spliced into listen) that returns the buffer's content
-                fr, fenv, leaf = ctx.vals.trace(w.func, w.env, v)
-                return any(isinstance(x, ast.Call) and isinstance(x.func, ast.Attribute) and x.func.attr == "getvalue"
-                           and ctx.eff.rebase(ctx.eff.paths(fr).of(x.func.value) or "", fr, fenv) == "self._response_buffer" for x in ast.walk(leaf))
-
-            ok = bool(vals) and all(from_buffer(v) for v in vals)
-        elif src is not None:
-            ok = any(isinstance(x, ast.Call) and isinstance(x.func, ast.Attribute) and x.func.attr == "getvalue" for x in ast.walk(src))
+        if src is not None:
+            # directly, through a local, or through a helper (spliced into listen) that returns the buffer's content
+            ls = ctx.vals.leaves(w.func, w.env, src)
+            ok = bool(ls) and all(any(isinstance(x, ast.Call) and isinstance(x.func, ast.Attribute) and x.func.attr == "getvalue"
+                                      and ctx.eff.rebase(ctx.eff.paths(fr).of(x.func.value) or "", fr, fenv) == "self._response_buffer" for x in ast.walk(leaf))
+                                  for fr, fenv, leaf in ls)
         rep.ob(rule, "the reply sent is the content of this session's response buffer", ok, node=w)
 
 
@@ -819,6 +812,10 @@ def r_reply_forms(ctx: Ctx, rule: str):
             while aw is not None and not isinstance(aw, ast.Await):
                 aw = parents.get(id(aw)) if isinstance(aw, ast.Call) and isinstance(aw.func, ast.Name) and aw.func.id == "cast" else None
             if aw is None:
+                # `c = return_or_exception(...)` ... `await c`: the await that stands for this call
+                orig = next((k for k, v_ in ctx.an.awaited_via.items() if v_ is c.ast and k not in {id(x) for x in ctx.an.await_syn.values()}), None)
+                aw = next((x for x in sc._own_nodes() if id(x) == orig), None) if orig is not None else None
+            if aw is None:
                 rep.ob(rule + "r", "the outcome of the call is awaited and used", False, node=c)
                 continue
             holder = parents.get(id(aw))
@@ -829,22 +826,33 @@ def r_reply_forms(ctx: Ctx, rule: str):
                 if isinstance(tgt, ast.Name):
                     var = tgt.id
             else:
-                # used inline: climb to the enclosing write call
+                # used inline: climb to the enclosing write call (or to a helper of the session that receives the value)
                 cur = aw
                 while cur is not None and not (isinstance(cur, ast.Call) and isinstance(cur.func, ast.Attribute) and cur.func.attr == "write"):
-                    cur = parents.get(id(cur))
+                    nxt = parents.get(id(cur))
+                    if isinstance(nxt, ast.Call) and any(x is cur for x in nxt.args + [k.value for k in nxt.keywords]) and cur is aw:
+                        cal_ = sc.callee(nxt)
+                        if cal_.kind == "pkg" and cal_.targets and all(t.cls is sess for t in cal_.targets):
+                            var = "<awaited>"  # handed straight to a helper: judged below like a value bound to a local
+                            cur = None
+                            break
+                    cur = nxt
                 written = cur
+
+            def is_val(x: ast.AST) -> bool:
+                return x is aw if var == "<awaited>" else (isinstance(x, ast.Name) and x.id == var)
+
             if var is not None:
                 writes = [m for m in ctx.nodes(f, lambda m: any(e.kind == "write" and e.path == "self._response_buffer" for e in ctx.eff.of_node(m)))
-                          if any(isinstance(x, ast.Name) and x.id == var for x in ast.walk(m.ast))]
+                          if any(is_val(x) for x in ast.walk(m.ast))]
                 if not writes:
                     # the value may be handed to a helper of the session that writes the reply
                     helper_calls = [m for m in ctx.nodes(f, lambda m: m.op == "call" and m.callee is not None and m.callee.kind == "pkg" and all(t.cls is sess for t in m.callee.targets)
-                                                         and any(isinstance(x, ast.Name) and x.id == var for x in m.ast.args + [k.value for k in m.ast.keywords]))]
+                                                         and any(is_val(x) for x in m.ast.args + [k.value for k in m.ast.keywords]))]
                     handled = False
                     for hc in helper_calls:
                         h = hc.callee.targets[0]
-                        pn = next((pname for pname in h.param_names() if isinstance(ctx.call_arg(hc.ast, h, pname), ast.Name) and ctx.call_arg(hc.ast, h, pname).id == var), None)
+                        pn = next((pname for pname in h.param_names() if ctx.call_arg(hc.ast, h, pname) is not None and is_val(ctx.call_arg(hc.ast, h, pname))), None)
                         if pn is None:
                             continue
                         hg = ctx.an.cfg(h)
